@@ -290,6 +290,33 @@ func ruleValidateBeforeStore(c *Ctx, rule string) {
 		}
 		c.Ok(rule, "validateGroupTransition rejects a changed "+g.name, c.P.Pos(vf.Pos()), ok, fmt.Sprintf("%d rejecting edge(s), every success return lies behind the check", len(es)))
 	}
+	// and it refuses nothing else: membership and threshold rules of a resharing belong to the DKG state machine (which
+	// measures against the *previous* threshold); a node whose gate refuses the group every other node switches to stays on
+	// the old share for good
+	idx := errResultIndex(vf)
+	nRej := 0
+	for _, lf := range returnLeaves(vf, idx) {
+		if isNilConst(lf.v) {
+			continue
+		}
+		nRej++
+		okRej := mustCross(lf.at, func(e edge) bool {
+			for _, cj := range edgeConjuncts(e) {
+				for _, g := range guards {
+					if g.pred(cj.cond, cj.truth) {
+						return true
+					}
+				}
+				if x, isEq, okn := nilTest(cj.cond); okn && isEq == cj.truth && !isErrorType(x.Type()) {
+					return true // a nil group
+				}
+			}
+			return false
+		})
+		c.Ok(rule, "validateGroupTransition refuses only a changed chain identity or a transition time in the past", shortPos(c.P, lf.at), okRej,
+			"this rejection is not one of: genesis time / period / id / seed differ, transition time in the past, nil group")
+	}
+	c.Floor(rule, "rejections in validateGroupTransition", nRej, 5)
 }
 
 // R7.3 (vault) -------------------------------------------------------------------------------------
@@ -323,6 +350,45 @@ func ruleVaultSwap(c *Ctx, rule string) {
 	c.Ok(rule, "Vault.SetInfo replaces share, group and public polynomial together under the write lock", c.P.Pos(si.Pos()), okF && allLocked,
 		fmt.Sprintf("share=%s group=%s pub=%s; all under mu: %v", pathOf(written["share"]), pathOf(written["group"]), trimTemps(pathOf(written["pub"])), allLocked))
 	_ = sh
+	// each of the three is replaced on every path through SetInfo (a conditional rebuild leaves the old polynomial in place)
+	everyPath := true
+	forEachInstr(si, func(_ *ssa.BasicBlock, _ int, in ssa.Instruction) {
+		if st, ok := in.(*ssa.Store); ok {
+			if fa, isFA := st.Addr.(*ssa.FieldAddr); isFA && typeShort(fa.X.Type()) == "crypto/vault.Vault" {
+				switch fieldName(fa.X.Type(), fa.Field) {
+				case "share", "group", "pub":
+					if !passesThroughOnAllPaths(si, in.Block()) {
+						everyPath = false
+					}
+				}
+			}
+		}
+	})
+	c.Ok(rule, "Vault.SetInfo replaces share, group and public polynomial on every path", c.P.Pos(si.Pos()), everyPath, "no replacement is conditional")
+	// NewVault builds the same triple from its arguments: the polynomial is the group's, like in SetInfo
+	if nv := c.P.Fn("crypto/vault.NewVault"); c.Anchor(rule, "crypto/vault.NewVault", nv != nil) {
+		okNV := false
+		detail := "no Vault literal"
+		for _, lit := range literalsOfType(nv, "crypto/vault.Vault") {
+			fields, ok := literalFields(lit)
+			if !ok || fields["pub"] == nil {
+				continue
+			}
+			var gp, sp *ssa.Parameter
+			for _, p := range nv.Params {
+				switch typeShort(p.Type()) {
+				case "common/key.Group":
+					gp = p
+				case "common/key.Share":
+					sp = p
+				}
+			}
+			pp := pathOf(fields["pub"])
+			okNV = gp != nil && sp != nil && fields["group"] == ssa.Value(gp) && fields["share"] == ssa.Value(sp) && strings.Contains(pp, gp.Name()+".PublicKey") && !strings.Contains(pp, sp.Name())
+			detail = "pub = " + trimTemps(pp)
+		}
+		c.Ok(rule, "NewVault takes the public polynomial from the group it is given", c.P.Pos(nv.Pos()), okNV, detail)
+	}
 	// no unlock in the middle
 	// readers
 	for _, fn := range c.P.SubjectFns() {
